@@ -101,6 +101,15 @@ type Case struct {
 	Structname *Param `json:"structname,omitempty"`
 	Schema     *Param `json:"schema,omitempty"` // non-nil => require-template-schema-exists: true
 
+	// CfgKey: a `config:` parameter written INSIDE the config file (migrate copies it from v2
+	// files): "" none, self-name, self-abs, other-rel, other-abs (an existing, different file),
+	// missing-rel, missing-abs. The file actually loaded stays the one ConfigDir is about.
+	CfgKey string `json:"cfg_key,omitempty"`
+	// LineAt[i]: //line directives in Files[i] (goyacc-style generated sources): 0 none, 1 above
+	// the package clause, 2 in the middle of the file (before the interfaces), 3 both.
+	LineAt  []int  `json:"line_at,omitempty"`
+	LineRef string `json:"line_ref,omitempty"` // e.g. grammar/greeter.y
+
 	// Entries, when non-empty, is written as the `configs:` list of every listed interface: one
 	// mock per (interface, entry). StructName and Template then belong to the entry.
 	Entries []Entry `json:"entries,omitempty"`
@@ -365,6 +374,28 @@ func (l layout) templateOf(k int) (file, value string) {
 	}
 	file = filepath.Join(filepath.Dir(l.templFile), fmt.Sprintf("probe%d.templ", k))
 	return file, strings.TrimSuffix(l.template, "probe.templ") + filepath.Base(file)
+}
+
+// cfgKey: the value of the in-file `config:` parameter and the other file it may name.
+func (c Case) cfgKey(l layout) (value, otherFile string) {
+	other := filepath.Join(l.mod, "alt", "other-config.yml")
+	missing := filepath.Join(l.mod, "nowhere", "absent.yml")
+	rel := func(p string) string { r, _ := filepath.Rel(l.cwd, p); return r }
+	switch c.CfgKey {
+	case "self-name":
+		return c.CfgName, ""
+	case "self-abs":
+		return l.cfgFile, ""
+	case "other-rel":
+		return rel(other), other
+	case "other-abs":
+		return other, other
+	case "missing-rel":
+		return rel(missing), ""
+	case "missing-abs":
+		return missing, ""
+	}
+	return "", ""
 }
 
 func (c Case) entries() []Entry {
@@ -778,6 +809,15 @@ func gen(t *rapid.T) Case {
 	}
 	c.TemplDir = g.pick("templdir", []string{".", "tmpl"})
 	c.TemplAbs = g.chance("templabs", 50)
+	if g.chance("cfgkey", 30) {
+		c.CfgKey = g.pick("cfgkeykind", []string{"self-name", "self-abs", "other-rel", "other-abs", "missing-rel", "missing-abs"})
+	}
+	if g.chance("linedirective", 30) {
+		c.LineRef = g.pick("lineref", []string{"grammar/greeter.y", "parser.y", "../gen/lang.y", "gen/tmpl/iface.go.tmpl"})
+		for range c.Files {
+			c.LineAt = append(c.LineAt, g.n("lineat", 0, 3))
+		}
+	}
 
 	// what kind of case
 	flavour := g.pick("flavour", []string{"ok", "ok", "ok", "ok", "ok", "ok", "ok", "ok", "error", "error", "growth", "identity"})
@@ -915,6 +955,9 @@ func (c Case) configYAML(l layout, requireSchema bool, params map[string]*Param,
 		}
 		return out
 	}
+	if kv, _ := c.cfgKey(l); kv != "" {
+		w(0, "config", yq(kv))
+	}
 	w(0, "template", yq(l.template))
 	w(0, "formatter", "noop")
 	w(0, "force-file-write", "true")
@@ -962,7 +1005,18 @@ func (c Case) configYAML(l layout, requireSchema bool, params map[string]*Param,
 func (c Case) sources() map[string]string {
 	files := map[string]string{}
 	for fi, fn := range c.Files {
-		src := "package " + c.PkgName + "\n\n// T" + strconv.Itoa(fi) + " keeps every file non-empty.\ntype T" + strconv.Itoa(fi) + " struct{ N int }\n"
+		at := 0
+		if fi < len(c.LineAt) && c.LineRef != "" {
+			at = c.LineAt[fi]
+		}
+		src := ""
+		if at&1 != 0 {
+			src += "//line " + c.LineRef + ":1\n"
+		}
+		src += "package " + c.PkgName + "\n\n// T" + strconv.Itoa(fi) + " keeps every file non-empty.\ntype T" + strconv.Itoa(fi) + " struct{ N int }\n"
+		if at&2 != 0 {
+			src += "\n//line " + c.LineRef + ":" + strconv.Itoa(40+fi) + "\n"
+		}
 		for _, it := range c.Ifaces {
 			if it.File == fi {
 				src += "\ntype " + it.Name + " interface {\n\tDo(n int) (string, error)\n}\n"
@@ -1112,6 +1166,22 @@ func (c Case) classify() (fp string, classes []string, kind verdictKind, why str
 		classes = append(classes, "ifacedir=module-root")
 	} else {
 		classes = append(classes, "ifacedir=nested")
+	}
+	if c.CfgKey != "" {
+		classes = append(classes, "config-key-in-file="+c.CfgKey, "config-key-in-file/"+c.CfgMethod)
+		if c.trigConfigDir() {
+			classes = append(classes, "config-key-in-file/found-by-search-above-cwd")
+		}
+	}
+	for fi, at := range c.LineAt {
+		if c.LineRef == "" || at == 0 {
+			continue
+		}
+		for _, it := range c.targets() {
+			if it.File == fi {
+				classes = append(classes, fmt.Sprintf("line-directive=%d", at))
+			}
+		}
 	}
 	if filepath.Base(c.pkgPath()) != c.PkgName {
 		classes = append(classes, "pkgname!=dirname")
@@ -1321,6 +1391,10 @@ func run(c Case) *vh.Violation {
 
 	base := c.sources()
 	base[filepath.Join("ws", "mod", c.TemplDir, "probe.templ")] = strings.Replace(probeTemplate, "@@", "0", 1)
+	if _, other := c.cfgKey(l); other != "" {
+		r, _ := filepath.Rel(root, other)
+		base[r] = "# never loaded: only named by the config: key of the file in use\nall: false\n"
+	}
 	for _, en := range c.entries() {
 		if en.Templ > 0 {
 			base[filepath.Join("ws", "mod", c.TemplDir, fmt.Sprintf("probe%d.templ", en.Templ))] = strings.Replace(probeTemplate, "@@", strconv.Itoa(en.Templ), 1)
@@ -1424,6 +1498,9 @@ func run(c Case) *vh.Violation {
 			}
 		}
 		if b["ConfigDir"] == "" || resolve(l.cwd, b["ConfigDir"]) != l.cfgDir {
+			if c.CfgKey != "" {
+				return bad("mockery/binding=ConfigDir/config-key-in-file/"+layoutKey+"/not-the-config-file-directory", "the file in use contains config: %s; ConfigDir = %q (resolved against cwd: %s) but the config file used is %s", c.CfgKey, stripRoot(b["ConfigDir"]), stripRoot(resolve(l.cwd, b["ConfigDir"])), stripRoot(l.cfgFile))
+			}
 			if c.trigConfigDir() {
 				return bad(keyConfigDir, "ConfigDir = %q (resolved against cwd: %s) but the config file used is %s", stripRoot(b["ConfigDir"]), stripRoot(resolve(l.cwd, b["ConfigDir"])), stripRoot(l.cfgFile))
 			}
